@@ -774,15 +774,27 @@ class Hist(Scenario):
                     self.write(f, [self.fresh("human", hostile=False) for _ in range(2)])
             self.do_edit(author="human", f=f, kinds=["ins", "del"])
             self.commit_all("upstream-sq")
+        pending = False
+        if rng.random() < 0.4:
+            # agent work that the squash does not touch is still uncommitted while the squash runs (fixed finding D84)
+            touched = set(self.w.ogit("diff", "--name-only", "-z", "%s...%s" % (base_branch, br)).split("\0"))
+            cands = [x for x in self.files if x not in touched and os.path.exists(os.path.join(self.w.repo, x))]
+            if cands:
+                self.do_edit(author=rng.choice(self.sessions), f=rng.choice(cands), kinds=["ins"])
+                pending = True
         p = self.g("merge", "--squash", br)
-        self.ops.append("merge:squash")
+        self.ops.append("merge:squash" + ("+pending" if pending else ""))
         if self.unmerged():
             self.resolve_conflicts()
         if continue_session and not self.unmerged():
             # a session whose work is being squashed goes on editing before the squash commit is made
             self.do_edit(author=rng.choice(self.sessions), kinds=["ins"])
             self.g("add", "-A")
+        if pending and rng.random() < 0.5:
+            self.g("add", "-A")
         self.g("commit", "-q", "--allow-empty", "-m", "squashed")
+        if pending:
+            self.commit_all("pending work after the squash")
 
     def ensure_origin(self):
         """A local bare `origin` for the main repository (server side of the CI rewrites)."""
